@@ -215,3 +215,11 @@ impl BlockCipherEncrypt for BeltBlock {
     #[verifier::external_body]
     fn encrypt_block_b2b(&self, in_block: &Block<Self>, out_block: &mut Block<Self>) { unimplemented!() }
 }
+
+// typenum exact division (B: PartialDiv<ChunkSize>): the quotient times the divisor is the dividend
+pub trait PartialDiv<Rhs: Unsigned>: Unsigned {
+    type Output: ArraySize;
+    proof fn partial_div_exact() ensures Self::Output::USIZE * Rhs::USIZE == Self::USIZE;
+}
+pub type PartialQuot<A, B> = <A as PartialDiv<B>>::Output;
+
